@@ -41,14 +41,15 @@ def F(x):
 _waves_cache = {}
 
 
-def onehot_waves(n, lazy=False):
+def onehot_waves(n, lazy=False, stretch=1.0):
+    """stretch != 1: the same arrays on a grid of another extent (same gpts, another angular sampling)"""
     import abtem
     from abtem.core.energy import energy2wavelength
     from abtem.core.axes import OrdinalAxis
-    key = (n, lazy)
+    key = (n, lazy, stretch)
     if key not in _waves_cache:
         lam = energy2wavelength(ENERGY)
-        L = lam * 1e3 / DELTA
+        L = stretch * lam * 1e3 / DELTA
         k = np.zeros((n * n, n, n), dtype=np.complex64)
         for p in range(n * n):
             k[p, p // n, p % n] = 1.0
@@ -76,7 +77,7 @@ def observe(c, lazy=False):
     inner, mid, outer, step = F(c["inner"]) * DELTA, F(c["mid"]) * DELTA, F(c["outer"]) * DELTA, F(c["step"]) * DELTA
     ev = {"case": c, "lazy": lazy, "raised": False, "n": n, "inner": c["inner"], "mid": c["mid"], "outer": c["outer"], "annular": [], "annular_unit": True,
           "integrate_radial": [], "integrate_unit": True, "flexible": [], "flexible_unit": True, "flexible_applicable": False, "segmented_sum": [],
-          "segmented_unit": True, "split_low": [], "split_high": [], "pattern_low": [], "pattern_high": [], "flex_bins": [], "flex_prefix": [], "flex_offset": c["inner"], "flex_width": c["step"]}
+          "segmented_unit": True, "annular_reused": [], "segmented_reused": [], "split_low": [], "split_high": [], "pattern_low": [], "pattern_high": [], "flex_bins": [], "flex_prefix": [], "flex_offset": c["inner"], "flex_width": c["step"]}
     try:
         w = onehot_waves(n, lazy)
         ev["annular"], ev["annular_unit"] = decode(abtem.AnnularDetector(inner=inner, outer=outer).detect(w))
@@ -89,6 +90,15 @@ def observe(c, lazy=False):
         nr, na = c["segs"]
         seg = abtem.SegmentedDetector(inner=inner, outer=outer, nbins_radial=nr, nbins_azimuthal=na, rotation=0.3).detect(w)
         ev["segmented_sum"], ev["segmented_unit"] = decode(seg)
+        # detector objects have histories: the same limits, but the object has already detected wave functions of the same gpts on a
+        # grid of another extent (another angular sampling) - eagerly, so whatever it keeps is really there
+        other = onehot_waves(n, False, 0.8)
+        worn = abtem.AnnularDetector(inner=inner, outer=outer)
+        worn.detect(other)
+        ev["annular_reused"], _ = decode(worn.detect(w))
+        worn = abtem.SegmentedDetector(inner=inner, outer=outer, nbins_radial=nr, nbins_azimuthal=na, rotation=0.3)
+        worn.detect(other)
+        ev["segmented_reused"], _ = decode(worn.detect(w))
         try:
             flex = abtem.FlexibleAnnularDetector(step_size=step, inner=inner).detect(w)
         except RuntimeError as ex:
@@ -164,7 +174,7 @@ def self_test(ctx: Ctx):
     ring = lambda lo, hi: [a * n + b for a, b in product(range(n), range(n)) if lo * lo <= fr(a) ** 2 + fr(b) ** 2 < hi * hi]
     good = {"raised": False, "n": 4, "inner": q(3, 4), "mid": q(5, 4), "outer": q(9, 4), "annular": ring(0.75, 2.25), "annular_unit": True,
             "integrate_radial": ring(0.75, 2.25), "integrate_unit": True, "flexible": ring(0.75, 2.75), "flexible_unit": True, "flexible_applicable": True,
-            "segmented_sum": ring(0.75, 2.25), "segmented_unit": True, "split_low": ring(0.75, 1.25), "split_high": ring(1.25, 2.25), "pattern_low": ring(0.75, 1.25), "pattern_high": ring(1.25, 2.25),
+            "segmented_sum": ring(0.75, 2.25), "segmented_unit": True, "annular_reused": ring(0.75, 2.25), "segmented_reused": ring(0.75, 2.25), "split_low": ring(0.75, 1.25), "split_high": ring(1.25, 2.25), "pattern_low": ring(0.75, 1.25), "pattern_high": ring(1.25, 2.25),
             "flex_bins": [ring(0.75, 1.75), ring(1.75, 2.75)], "flex_prefix": [ring(0.75, 1.75), ring(0.75, 2.75)], "flex_offset": q(3, 4), "flex_width": q(1)}
     b1 = dict(good, flex_bins=[ring(0.75, 2.0), ring(2.0, 3.25)])          # bins wider than the stated sampling
     b2 = dict(good, annular=ring(0.75, 2.25)[:-1])
